@@ -288,6 +288,14 @@ impl<'a> Exec<'a> {
 
     fn check_clean_end(&mut self, how: &str) {
         if self.seen_err {
+            // an error has been reported; a body whose framing is definitely incomplete or malformed
+            // is all the same never reported as cleanly finished afterwards (the caller reads again)
+            if self.b.must_err && !self.b.injected_fault {
+                self.viol.push((
+                    "end:clean-after-error".into(),
+                    format!("{how} reported a cleanly finished body after {} bytes, after an error had been returned, although the framing is incomplete or malformed", self.cursor),
+                ));
+            }
             return;
         }
         if let Some(exact) = &self.b.exact {
